@@ -7,6 +7,18 @@ QUERY = {"cerr": "(", "r0": "?(1 2 ?eq)", "r1": "", "r3": "(10, 20, 30)", "err0"
          "err1": "[7, 8] elem (?0 || drop drop drop drop drop drop)"}
 
 
+# what the model calls the literal argument "x": texts that a string literal would read differently
+LITS = ["x", "100%%", "%s", "a%( 1 %)b", "load: %d%%", "back\\slash", 'q"uote', "%", "tail%"]
+
+
+def lit_of(idx):
+    return LITS[idx % len(LITS)]
+
+
+def zw_quote(sv):
+    return '"' + sv.replace("\\", "\\\\").replace('"', '\\"').replace("%", "%%") + '"'
+
+
 def run_cli(dw, cfg, wd, files, variant, idx):
     argv = [dw]
     for f in cfg["flags"]:
@@ -17,9 +29,9 @@ def run_cli(dw, cfg, wd, files, variant, idx):
     for a in cfg["args"]:
         if a["lit"]:
             if variant >= 3:
-                argv += ["--a", '"%s"' % a["vals"][0]]       # -a X  ==  --a '"X"'
+                argv += ["--a", zw_quote(lit_of(idx))]       # -a X  ==  --a '"X"' (X spelled as a string literal)
             else:
-                argv += ["-a", a["vals"][0]]
+                argv += ["-a", lit_of(idx)]
         elif a["vals"]:
             argv += ["--a", "(" + ", ".join('"%s"' % v for v in a["vals"]) + ")"]
         else:
@@ -71,7 +83,7 @@ def run(tier):
     for (i, c, variant), (argv, rc, so, se) in common.parallel(one, jobs, workers=12):
         vd.cov["evaluations"] += 1
         exp = c["exp"]
-        exp_out = [l.replace("@F1@", files["F1"]).replace("@F2@", files["F2"]) for l in exp["out"]]
+        exp_out = [lit_of(i) if l == "x" else l.replace("@F1@", files["F1"]).replace("@F2@", files["F2"]) for l in exp["out"]]
         got_out = so.split("\n")[:-1] if so else []
         flags = "".join(sorted(c["flags"]))
         nvals = [len(a["vals"]) for a in c["args"]]
